@@ -302,6 +302,52 @@ def _worker(job):
     return dict(src=src, problems=problems, reqs=reqs, checks=checks, gen_seed=seed)
 
 
+def rewrite_same_path(ctx, tmp):
+    """a file that is edited and collected again in the same process (an editor save, a watch loop): the lines reported are those of the
+    file as it is NOW - also when the new text has the same size and the same modification second as the old one"""
+    import random
+    from xdoctest import core
+    nbad = 0
+    for i in range(40 if ctx.tier == 'quick' else 600):
+        rng = random.Random(ctx.seed * 7907 + i)
+        src, expectations = gen_module(rng)
+        try:
+            compile(src, 'm', 'exec')
+        except SyntaxError:
+            continue
+        moved = '# a comment that an edit moves from the last line to the first\n'
+        src_a, src_b = src + moved, moved + src
+        path = os.path.join(tmp, 'xdverif_c08_rw%d.py' % i)
+        open(path, 'w').write(src_a)
+        st = os.stat(path)
+        so = sys.stdout
+        try:
+            sys.stdout = open(os.devnull, 'w')
+            with warnings.catch_warnings():
+                warnings.simplefilter('ignore')
+                list(core.parse_doctestables(path, style='freeform', analysis='static'))
+                open(path, 'w').write(src_b)
+                os.utime(path, ns=(st.st_atime_ns, st.st_mtime_ns))
+                exs = list(core.parse_doctestables(path, style='freeform', analysis='static'))
+        finally:
+            sys.stdout.close()
+            sys.stdout = so
+        sys.modules.pop('xdverif_c08_rw%d' % i, None)
+        flines = re.split('\r\n|\r|\n', src_b)
+        by_name = {e[0]: e for e in expectations}
+        problems = []
+        for ex in exs:
+            if ex.callname in by_name:
+                name, fail, stm, dstyle = by_name[ex.callname]
+                problems += ['%s after the file was rewritten (same size, same second): %s' % (name, pr) for pr in check_example(ex, flines, fail, stm)]
+        ctx.evaluations += 1
+        if problems and nbad < 3:
+            nbad += 1
+            ctx.violation('line-numbers', {'what': '; '.join(problems)[:1500], 'module_source': src_b, 'first_version': src_a, 'rewrite': True,
+                          'theorem_or_correspondence': 'C08: the file read at the reported lines, after a rewrite of the same path'}, True)
+    ctx.count('rewritten_modules', 40 if ctx.tier == 'quick' else 600)
+
+
 def run(ctx):
     tmp = tempfile.mkdtemp(prefix='xdverif_c08_')
     try:
@@ -334,6 +380,7 @@ def run(ctx):
                 ctx.violation('line-numbers', {'what': '; '.join(r['problems'])[:1800], 'module_source': r['src'], 'gen_seed': r.get('gen_seed'),
                               'theorem_or_correspondence': 'C08: the file read at the reported lines'}, True)
         ctx.count('generated layouts that are not valid modules (skipped)', bad_gen)
+        rewrite_same_path(ctx, tmp)
     finally:
         shutil.rmtree(tmp, ignore_errors=True)
     ctx.add_rule('%d generated module layouts: blank lines, 0..2 decorators, function or method, six quote/prefix styles, docstring opening alone or sharing its line, '
@@ -364,7 +411,17 @@ def replay(path):
                 return 0
         from xdoctest import core
         p = os.path.join(tmp, 'xdverif_c08_replay.py')
-        open(p, 'w').write(d['module_source'])
+        if d.get('rewrite'):
+            # the first version is collected, then the file is rewritten (same size, same modification time) and collected again below
+            open(p, 'w').write(d['first_version'])
+            st = os.stat(p)
+            with warnings.catch_warnings():
+                warnings.simplefilter('ignore')
+                list(core.parse_doctestables(p, style='freeform', analysis='static'))
+            open(p, 'w').write(d['module_source'])
+            os.utime(p, ns=(st.st_atime_ns, st.st_mtime_ns))
+        else:
+            open(p, 'w').write(d['module_source'])
         flines = re.split('\r\n|\r|\n', d['module_source'])
         bad = False
         for style in ('freeform', 'google'):
@@ -385,6 +442,9 @@ def replay(path):
         if bad or d['kind'] != 'line-numbers':
             print('VIOLATION property=C08 replay=%s' % path)
             return 1
+        if d.get('rewrite'):
+            print('after the rewrite every part is reported on the line that holds it')
+            return 0
         print('(part offsets hold on this module; the recorded problem concerned failed_lineno: %s)' % d['what'][:300])
         print('VIOLATION property=C08 replay=%s' % path)
         return 1
